@@ -68,7 +68,9 @@ NamePool == <<"a", "b", "c", "d">>
 Upper(n) == CASE n = "a" -> "A" [] n = "b" -> "B" [] n = "c" -> "C" [] n = "d" -> "D"
 VNames   == <<"v1", "v2", "v3", "v4">>
 XNames   == <<"x1", "x2">>
-ExtModes == {"arg", "annotated", "field"}
+\* "recref": the validators sit on the BACK-REFERENCE of a recursive class (Annotated["R", validators(..)] inside R,
+\* compiled lazily through the recursion placeholder) whose node holds the object
+ExtModes == {"arg", "annotated", "field", "recref"}
 
 Fields == case.fields
 Vals   == case.vals
